@@ -105,8 +105,8 @@ def finish():
     by_net = {}
     for r in recs:
         ni = common.NetInfo(r["bn"])
-        by_net.setdefault(ni.net_line, (ni, []))[1].append(r)
-    for net_line, (ni, rs) in by_net.items():
+        by_net.setdefault((ni.net_line, tuple(ni.names)), (ni, []))[1].append(r)
+    for (net_line, _names), (ni, rs) in by_net.items():
         lines, keep = [net_line], []
         for r in rs:
             full = [c for c in r["cands"] if set(c.keys()) == set(ni.names)]
